@@ -320,8 +320,11 @@ def parseScheds (rest : List (List String)) : List (Nat × Option Sched) :=
 reported as a term of `Sched`; the literal models (`mcbSignedTbbH` on literal heaps; `lookupTbb` for the tree variants)
 executed under exactly those schedules must emit EXACTLY the cycles the C++ templates emitted under the stand-in. -/
 def replayTbb (id : String) (gI : Graph) (rev : List Nat) (var : String) (dim : Nat) (sup0 : List (List Nat))
-    (rest : List (List String)) (evs : List SearchEv) (cycI : List (List Nat)) (ret : Int) : Option String := Id.run do
-  let scheds := parseScheds rest
+    (rest : List (List String)) (evs : List SearchEv) (cycI : List (List Nat)) (ret : Option Int)
+    (trailing : Nat := 0) : Option String := Id.run do
+  -- `trailing` = number of reduces at the end of the run that do not belong to the exact phase (the approximate
+  -- builder's weight reduction)
+  let scheds := (parseScheds rest).reverse.drop trailing |>.reverse
   if scheds.any (fun p => p.2.isNone) then return some s!"diff {id} parse-sched"
   let schedAt := fun (i : Nat) => ((scheds[i]?).bind (·.2)).getD (.leaf 0 0)
   if var == "signed_tbb" then
@@ -348,7 +351,7 @@ def replayTbb (id : String) (gI : Graph) (rev : List Nat) (var : String) (dim : 
       if a != b then return some s!"diff {id} literal-tbb-loop phase {k} model=[{showNats a}] impl=[{showNats b}]"
       k := k + 1
     if r.cycles.length != cycI.length then return some s!"diff {id} literal-tbb-loop phases"
-    if r.weight != ret then return some s!"diff {id} literal-tbb-loop weight model={r.weight} impl={ret}"
+    if ret.isSome && some r.weight != ret then return some s!"diff {id} literal-tbb-loop weight model={r.weight} impl={ret}"
     return none
   else
     -- tree variants: one reduce per phase
@@ -365,7 +368,7 @@ def replayTbb (id : String) (gI : Graph) (rev : List Nat) (var : String) (dim : 
       if a != b then return some s!"diff {id} literal-tbb-loop phase {k} model=[{showNats a}] impl=[{showNats b}]"
       k := k + 1
     if r.cycles.length != cycI.length then return some s!"diff {id} literal-tbb-loop phases"
-    if r.weight != ret then return some s!"diff {id} literal-tbb-loop weight model={r.weight} impl={ret}"
+    if ret.isSome && some r.weight != ret then return some s!"diff {id} literal-tbb-loop weight model={r.weight} impl={ret}"
     return none
 
 /-- C01/C02: the implementation's cycles are replayed through the literal support bookkeeping -/
@@ -406,7 +409,7 @@ def handleExact (c : Case) : String := Id.run do
           | none => lit := 1
         if (var == "signed_tbb" || var == "fvs_tbb" || var == "iso_tbb") && (findLine "shim" rest).isSome
             && (var != "signed_tbb" || !evs.isEmpty || dim == 0) then
-          match replayTbb c.id gI rev var dim sup0 rest evs cycI ret with
+          match replayTbb c.id gI rev var dim sup0 rest evs cycI (some ret) with
           | some d => return d
           | none => lit := 1
         if var == "signed" && (!evs.isEmpty || dim == 0) then
@@ -510,6 +513,14 @@ def handleApprox (c : Case) : String := Id.run do
             | none => litExact := 1
             | some _ => return d
           else return d
+      -- the TBB variants under the stand-in: the exact phase on the spanner under the logged schedules (the last reduce of the
+      -- run is the builder's weight reduction and is not part of the exact phase)
+      if (var == "signed_tbb" || var == "fvs_tbb" || var == "iso_tbb") && (findLine "shim" rest).isSome then
+        let evs := parseSearchEvs rest
+        if var != "signed_tbb" || !evs.isEmpty || fi.dim == 0 then
+          match replayTbb c.id gI fi.reverse var fi.dim sup0 rest evs cycI none 1 with
+          | some d => return d
+          | none => litExact := 1
       -- one cycle per dropped edge (any order: the TBB variant appends concurrently)
       let mut remaining := D
       for cyc in extra do
